@@ -28,40 +28,41 @@ FlatVs(vs) == [i \in 1..Len(vs) |-> FlatV(vs[i])]
 
 CumLens(lens) == [k \in 1..Len(lens) |-> FoldLeft(LAMBDA acc, x : acc + x, 0, SubSeq(lens, 1, k))]
 
+\* the names of the conjuncts that do not hold for record e (one string; empty: accepted)
 Failed(e) ==
   LET flat == Flat(e.stream)
       D    == DecodeAll(flat)
       dec  == FlatVs(e.dec)
       ends == CumLens(e.lens)
       n    == Len(e.dec)
-  IN (IF D.msgs = dec /\ D.tail = "eof" /\ e.err = "EOF" THEN {} ELSE {"decode"})
-     \cup (IF n = Len(e.lens) /\ D.ends = ends THEN {} ELSE {"consumed"})
-     \cup (IF \A k \in 1..MinI(n, Len(e.lens)) :
+  IN (IF D.msgs = dec /\ D.tail = "eof" /\ e.err = "EOF" THEN "" ELSE "decode ")
+     \o (IF n = Len(e.lens) /\ D.ends = ends THEN "" ELSE "consumed ")
+     \o (IF \A k \in 1..MinI(n, Len(e.lens)) :
                  \/ e.inline[k]
                  \/ /\ RopeLen(Encode(e.dec[k])) = e.lens[k]
                     /\ Flat(Encode(e.dec[k])) = SubSeq(flat, ends[k] - e.lens[k] + 1, ends[k])
-           THEN {} ELSE {"reencode"})
-     \cup (IF \A k \in 1..MinI(n, Len(e.lens)) :
+           THEN "" ELSE "reencode ")
+     \o (IF \A k \in 1..MinI(n, Len(e.lens)) :
                  e.inline[k] =>
                    /\ e.dec[k].t = "array" /\ ~e.dec[k].null
                    /\ \A j \in 1..Len(e.dec[k].a) : e.dec[k].a[j].t = "bulk" /\ ~e.dec[k].a[j].null
                    /\ DecodeAll(Flat(Encode(e.dec[k]))).msgs = <<dec[k]>>
                    /\ LET ws == [j \in 1..Len(dec[k].a) |-> dec[k].a[j].s] IN
                         ws = Words(SubSeq(flat, ends[k] - e.lens[k] + 1, ends[k] - 2))
-           THEN {} ELSE {"inline"})
-     \cup (IF \A i \in 1..Len(e.trunc) :
+           THEN "" ELSE "inline ")
+     \o (IF \A i \in 1..Len(e.trunc) :
                  LET T == DecodeAll(SubSeq(flat, 1, e.trunc[i].at)) IN
                  /\ Len(T.msgs) = e.trunc[i].n
                  /\ e.trunc[i].n = Cardinality({k \in 1..Len(ends) : ends[k] <= e.trunc[i].at})
-           THEN {} ELSE {"trunc"})
-     \cup (IF e.reads = <<<<0 - 7, 0 - 7>>>> \/ RDecodeAll(flat, e.chunks, e.buf).reads = e.reads
-           THEN {} ELSE {"reads"})
+           THEN "" ELSE "trunc ")
+     \o (IF e.reads = <<<<0 - 7, 0 - 7>>>> \/ RDecodeAll(flat, e.chunks, e.buf).reads = e.reads
+           THEN "" ELSE "reads")
 
 TraceInit == l = 1
 
 TraceNext ==
   /\ l <= Len(TraceLog)
-  /\ Failed(TraceLog[l]) = {}
+  /\ Failed(TraceLog[l]) = ""
   /\ l' = l + 1
 
 TraceSpec == TraceInit /\ [][TraceNext]_l
